@@ -212,7 +212,15 @@ class BeliefPropagationDecoder(BaseBlockDecoder[Union[LinearBlockCodeEncoder, LD
         self.n_c = self.H.size(0)
         self.prep_edge_ind()
         if not self.standard:
-            self.idx_mess_t = torch.where(self.G.sum(0) == 1)[0]
+            # Message positions: for every message bit i the first weight-one column of G whose one is in row i.
+            # (A generator may contain further weight-one columns in its parity part; they carry no extra message bit.)
+            unit_columns = torch.where(self.G.sum(0) == 1)[0]
+            positions = []
+            for i in range(self.k):
+                candidates = [int(j) for j in unit_columns if self.G[i, j] == 1]
+                if candidates:
+                    positions.append(candidates[0])
+            self.idx_mess_t = torch.tensor(positions, dtype=torch.long) if len(positions) == self.k else unit_columns
 
     def prep_edge_ind(self):
         """Prepare edge indices and map structures for the Tanner graph.
